@@ -51,7 +51,7 @@ def lattice_pairs(ctx, rng, records, wheres, counts):
     motions = [(np.array([1.0, 1, 0, 0]), np.array([1.0, -2, 3])), (np.array([1.0, -1, 1, 1]), np.array([0.0, 2, -1])), (np.array([0.0, 0, 1, 0]), np.array([2.0, 0, 0]))]
     variants = [("Quaternion", "quat", False, 1), ("Quaternion", "quat", True, 2), ("R12", "r12", False, 1), ("R12", "r12", True, 2),
                 ("Quaternion", "quat", False, 2), ("R12", "r12", False, 2), ("Quaternion", "quat", True, 1)]
-    nstates = 3 if ctx.thorough else 1
+    nstates = 8 if ctx.thorough else 1
     for (interp_name, interp, mixed, degree) in variants:
         name = f"{interp_name}[p={degree},mixed={mixed}]"
         try:
